@@ -138,6 +138,8 @@ IDIOMS = [
      r'shim::iter_any_nonzero(&\1)'),
     ('R6.zip_all_eq', r'([A-Za-z_][A-Za-z0-9_]*)\.iter\(\)\.zip\(([A-Za-z_][A-Za-z0-9_]*)\.iter\(\)\)\.all\(\|\(digit_a, digit_b\)\| digit_a == digit_b\)',
      r'shim::slices_equal(&\1, &\2)'),
+    # R6f: the f64 digit-count estimate `(bits as f64 / LOG2_10) as u64` -> shim helper carrying float axiom A1
+    ('R6.f64_digit_estimate', r'\(([A-Za-z_][A-Za-z0-9_]*\.bits\(\)) as f64 / LOG2_10\) as u64', r'shim::f64_digit_estimate(\1)'),
     # R2 reference patterns
     ('R2.split_last_ref', r'let \(&([a-z_0-9]+), ([a-z_0-9]+)\) = ([^;]*?)\.split_last\(\)\.unwrap\(\);',
      r'let (\1__r, \2) = \3.split_last().unwrap(); let \1 = *\1__r;'),
@@ -247,6 +249,14 @@ def rewrite_fns(text, log, ret_name='ret'):
                 if t.kind == 'ident' and t.text == 'self':
                     edits.append((t.start, t.end, 'self_'))
             log['R1.mut_self'] = log.get('R1.mut_self', 0) + 1
+        # R11: a parameter named `int` collides with Verus' ghost type `int`
+        for q in range(len(params) - 1):
+            if params[q].kind == 'ident' and params[q].text == 'int' and params[q + 1].text == ':' and bo is not None:
+                for t in toks[po + 1:bc]:
+                    if t.kind == 'ident' and t.text == 'int':
+                        edits.append((t.start, t.end, 'int_'))
+                log['R11.rename_int_param'] = log.get('R11.rename_int_param', 0) + 1
+                break
         # R10
         if arrow is not None:
             j = arrow + 2
